@@ -113,11 +113,17 @@ def run(ctx, drv):
                 if r != exp:
                     ctx.fail("box-dominance-wrong", dict(inp, boxes=[ba, bb]), r, exp, "core.EpsilonDominance.compare")
             else:
-                if r == 0:
-                    ctx.fail("zero-in-same-box", inp, r, "-1 or 1", "core.EpsilonDominance.compare")
-                elif lattice:
+                # exact squared distances to the box's ideal corner (finite values only)
+                try:
                     da = sum((Fraction(-o if d else o) - i * Fraction(eps_at(eps, j))) ** 2 for j, (d, o, i) in enumerate(zip(dirs, a.objectives, ba)))
                     db = sum((Fraction(-o if d else o) - i * Fraction(eps_at(eps, j))) ** 2 for j, (d, o, i) in enumerate(zip(dirs, b.objectives, bb)))
+                except (TypeError, ValueError, OverflowError):
+                    da = db = None
+                if r == 0 and (da is None or da != db):
+                    # the statement demands a preference when one of the two is nearer the corner; on an exact tie it leaves the
+                    # answer open (the archive clauses are judged on the histories)
+                    ctx.fail("zero-in-same-box", inp, r, "-1 or 1", "core.EpsilonDominance.compare")
+                elif lattice and da is not None and da != db:
                     exp = -1 if da < db else 1
                     if r != exp:
                         ctx.fail("corner-preference-wrong", dict(inp, dist=[str(da), str(db)]), r, exp, "core.EpsilonDominance.compare")
